@@ -249,6 +249,19 @@ def main(tier, seed):
         "samples": [{"case": c, "impl": i, "model": m} for c, i, m in list(zip(cases, impl, model))[:2]],
         "model_impl_disagreements": len(diffs),
     })
+    # a stop requested from inside a poll of the block_on future (oracle only): harness crunstop
+    scases = ["s", "ps", "pps", "ppps", "r", "pr", "ppr"]
+    sout = p_c03.run_batch(vlib.HARNESS, "crunstop", scases)
+    chk.cov["stop_from_inside_a_poll_cases"] = dict(zip(scases, sout))
+    for c, o in zip(scases, sout):
+        npolls = len(c)
+        want = ("NONE" if c.endswith("s") else "SOME") + " polls=%d rescued=0" % npolls
+        if not o.startswith(want):
+            what = ("a stop() requested from inside poll %d of the block_on future (followed by wakeup()) was lost: block_on did not return None "
+                    "(it had to be rescued by the watchdog)" % npolls) if c.endswith("s") else "block_on did not return the future's output after %d polls" % npolls
+            chk.violation("oracle-stop", "C11 violated on the real code: %s\nblock_on stop case (p = pending after a self-wake, s = stop()+wakeup() then pending, r = ready): %s\n# result: %s"
+                          % (what, c, o))
+            break
     # wakeup() from inside a source callback (sequential, timed): harness crunw
     wcases = wake_cases(tier, seed)
     with ThreadPoolExecutor(max_workers=8) as ex:
@@ -286,6 +299,16 @@ def main(tier, seed):
 
 
 def replay(path):
+    if "block_on stop case" in open(path).read():
+        vlib.build_harness()
+        cases = [l.split("):", 1)[1].strip() for l in open(path) if l.startswith("block_on stop case")]
+        out = p_c03.run_batch(vlib.HARNESS, "crunstop", cases)
+        rc = 0
+        for c, o in zip(cases, out):
+            print(c, "->", o)
+            if not o.startswith(("NONE" if c.endswith("s") else "SOME") + " polls=%d rescued=0" % len(c)):
+                rc = 1
+        return rc
     wc = [l.split(":", 1)[1].strip() for l in open(path) if l.startswith("wake ops (")]
     if wc:
         vlib.build_harness()
